@@ -16,11 +16,30 @@ def gaps_for(delay_ticks):
     return [0, 0, 0, 1, d // 2, d - 1, d, d + 1, 2 * d]
 
 
+class El:
+    """Queue element: unique identity (uid), equality by group - distinct elements may compare equal."""
+
+    __slots__ = ("uid", "grp")
+
+    def __init__(self, uid, grp):
+        self.uid = uid
+        self.grp = grp
+
+    def __eq__(self, other):
+        return isinstance(other, El) and other.grp == self.grp
+
+    def __hash__(self):
+        return hash(self.grp)
+
+    def __getitem__(self, i):  # e[1] is the unique id (history records use it)
+        return ("e", self.uid)[i]
+
+
 class C17(Scenario):
     prop = "C17"
     level = "exploration"
     rule = (
-        "case = (delay, producer program of put(delayed?)/sleep(gap), remover program of remove(target)/sleep, "
+        "case = (delay, producer program of put(delayed?)/sleep(gap) with elements that are distinct objects but may compare equal, remover program of remove(target)/sleep, "
         "optional closer, scheduler configuration) drawn from the run seed; gaps drawn around the delay boundary "
         "on the tick clock; distinct = distinct (operation-history digest, interleaving digest) pairs; non-trivial = at "
         "least one non-default scheduling decision (pre-emption) was taken in the run"
@@ -69,7 +88,9 @@ class C17(Scenario):
             closer = rng.choice(gaps + [3 * dt])
         sched = draw_sched(cfg, line=True, pct_k=250, step_cap=60_000, horizon=600)
         sched["instr"] = cfg.random() < 0.5
-        return {"delay": delay, "producer": prod, "remover": rem, "closer": closer, "sched": sched, "late_get": rng.random() < 0.5}
+        # some runs use elements that compare equal although they are distinct objects
+        groups = {str(i): 0 for i in range(n) if rng.random() < 0.6} if rng.random() < 0.4 else {}
+        return {"delay": delay, "producer": prod, "remover": rem, "closer": closer, "sched": sched, "late_get": rng.random() < 0.5, "groups": groups}
 
     def shrink(self, case):
         for key in ("producer", "remover"):
@@ -125,7 +146,7 @@ class C17(Scenario):
                     if op[0] == "sleep":
                         sim.sleep(op[1] / TICKS)
                     else:
-                        e = ("e", op[1])
+                        e = El(op[1], case.get("groups", {}).get(str(op[1]), op[1]))
                         elems[op[1]] = e
                         rec = {"id": op[1], "delayed": op[2], "inv_seq": sim.next_seq(), "inv_t": sim.now}
                         hist["puts"][op[1]] = rec
